@@ -27,7 +27,7 @@ type Environment struct {
 	epoch    int64 // incremented when a top level function or constant is replaced or deleted (invalidates cached results).
 	// Root only: names a function assigned as brand new locals because no enclosing scope had them (see noteCreated).
 	assumedAbsent map[string]struct{}
-	closures      bool // a function literal was evaluated in this environment (it can be the outer scope of a later call).
+	closures      bool // a function literal was evaluated in this environment or it made a self call (it can be the outer scope of a later call).
 	getMiss       int64
 	cantCache     bool
 	function      *Function
@@ -498,14 +498,15 @@ func (e *Environment) SetNoChecks(name string, val Object, create bool) Object {
 		return val
 	}
 	log.Debugf("SetNoChecks(%s) brand new to %d and above", name, e.depth)
+	res := e.create(name, val)
 	if e.depth != 0 {
 		r := e.root()
 		if r.assumedAbsent == nil {
 			r.assumedAbsent = make(map[string]struct{})
 		}
-		r.assumedAbsent[name] = struct{}{}
+		r.assumedAbsent[name] = struct{}{} // (after create: this frame creating the name is not an outer scope getting it.)
 	}
-	return e.create(name, val)
+	return res
 }
 
 func (e *Environment) Set(name string, val Object) Object {
@@ -547,6 +548,8 @@ func NewFunctionEnvironment(fn Function, current *Environment) (*Environment, bo
 	sameFunction := (current.cacheKey == fn.CacheKey)
 	if !sameFunction {
 		parent = fn.Env
+	} else {
+		current.closures = true // the caller's frame is the outer scope of this call, like for a function created in it.
 	}
 	env := &Environment{
 		store:    make(map[string]Object),
